@@ -1,4 +1,5 @@
 import SecsModel.Props.C20
+#print axioms SecsModel.Props.C20.tables_match_source
 #print axioms SecsModel.Props.C20.safety_all_histories
 #print axioms SecsModel.Props.C20.established_only_by_exchange
 #print axioms SecsModel.Props.C20.startup_converges
